@@ -33,3 +33,14 @@ package cluster_table_conf
 //@   nopanic nil,index
 //@   modifies nothing
 //@   ensures[an_accepted_table_has_a_version_and_a_config] result0 == nil ==> conf.Version != nil && conf.Config != nil
+
+// ---- C09 ----
+//@ spec addrInfoOf(b *BackendConf) string := abstract
+
+//@ func (*BackendConf).AddrInfo
+//@   props C09
+//@   nopanic nil
+//@   requires b != nil && b.Addr != nil && b.Port != nil
+//@   frame Sprintf pure
+//@   modifies nothing
+//@   assumes[names_the_address_key] result0 == addrInfoOf(b)
